@@ -14,33 +14,18 @@ def factory():
     return [C01Mon()]
 
 
-def on_exc(w):
-    return None  # runs that abort belong to the checks that own the scenario families
-
-
-def r_scenarios(tier):
-    from ..families import cross_family
-    from ..scenarios_r import base_family
-    sc = dict(base_family())
-    sc.update(cross_family(tier))
-    return sc
-
-
 def run(tier, seed):
     res = run_generic("C01", tier, seed, factory, WIT, RULE)
     # whole runs: every scenario family of the run-loop and event properties (orders rewritten by rules and shocks,
     # high-frequency agents, halts, index markets), the statement evaluated on every matching round of every execution
-    from ._r import run_r
+    from ._r import run_whole_runs
     from ..acceptors_r import acc_C01
-    ev0 = res.coverage.get("evaluations", 0)
-    run_r("C01", tier, seed, r_scenarios(tier), [acc_C01], 1 if tier == "quick" else 2, on_exc, ["whole_run_rounds_with_fills"], RULE,
-          res=res, label="whole_runs", split=0)
-    return res
+    return run_whole_runs(res, "C01", tier, seed, [acc_C01], RULE)
 
 
 def replay(payload):
     if payload.get("engine") == "R":
-        from ._r import replay_r
+        from ._r import replay_whole_runs
         from ..acceptors_r import acc_C01
-        return replay_r(r_scenarios("thorough"), [acc_C01], on_exc, payload)
+        return replay_whole_runs(payload, [acc_C01])
     return replay_generic(payload, factory)
